@@ -44,8 +44,10 @@ def sign_name(s) -> str:
 class AType(AObj):
     """An opaque class object (origin type, literal type, scope attribute)."""
 
-    def __init__(self, name: str):
+    def __init__(self, name: str, is_builtin: bool = False):
         self.name = name
+        self.is_builtin = is_builtin       # a class of the builtins module (reachable by its bare name in any module)
+        self.__dict__['__name__'] = name
 
     def __repr__(self):
         return f'<type {self.name}>'
@@ -342,6 +344,9 @@ class Generator:
             'beartype._util.hint.pep.utilpeptest.is_hint_pep':
                 lambda e, a, k: bool(isinstance(arg(a, k, 0, 'hint'), AHint) and arg(a, k, 0, 'hint').is_pep),
             'beartype._util.hint.pep.utilpeptest.die_if_hint_pep_unsupported': lambda e, a, k: None,
+            # whether an (abstract) class is a builtin is a property of the abstract class
+            'beartype._util.cls.utilclstest.is_type_builtin':
+                lambda e, a, k: bool(getattr(arg(a, k, 0, 'cls'), 'is_builtin', False)),
             'beartype._util.hint.utilhinttest.die_as_hint_unsupported': self._raise_stub('BeartypeDecorHintNonpepException'),
             'beartype._util.hint.pep.utilpepget.get_hint_pep_args': pep_args,
             'beartype._util.hint.pep.utilpepget.get_hint_pep_origin_type_isinstanceable': origin,
